@@ -70,6 +70,8 @@ def make_case(prop, seed, i, tier):
         t["auto"], t["need_facility"], t["component"] = True, False, None
     stage = STAGES[(i // 4 * 3 + i % 4) % len(STAGES)] if rng.random() < 0.8 else rng.choice(STAGES)
     from .p_c08 import gen_ops
+    if rng.random() < 0.08:
+        spec["init_datetime"] = rng.choice([[2024, 3, 31, 2, 30, 0], [2024, 10, 27, 2, 30, 0], [2023, 3, 26, 2, 0, 0]])
     enc = None
     if rng.random() < 0.12:
         # names in other scripts, and one of the encodings a user may pass to write/read_simple_json
@@ -237,6 +239,15 @@ def save(res, p, tag):
 
 
 def run_stage(case, res):
+    from .common import local_timezone
+    tz = local_timezone.DST if case["spec"].get("init_datetime") else None
+    with local_timezone(tz):
+        if tz:
+            res.count("C16.cases_under_a_daylight_saving_time_zone")
+        return _run_stage(case, res)
+
+
+def _run_stage(case, res):
     spec = case["spec"]
     _ENC[0] = case.get("encoding")
     if _ENC[0]:
